@@ -128,6 +128,7 @@ uint64_t sa_offset(const void *p);                                    /* arena o
 extern uint64_t sa_stat_moves, sa_stat_inplace, sa_stat_reuses, sa_stat_allocs, sa_stat_frees;
 void   sa_set_tag(int tag);                                           /* tag recorded with subsequent allocations */
 int    sa_block_tag(const void *p);
+void   sa_force_far(int on);                                         /* place the next small blocks gigabytes apart, whatever the policy */
 
 /* stack painting */
 void paint_stack(int byte, size_t nbytes);
